@@ -6,7 +6,8 @@
 // For every case, at every pointer alignment 0..63 (buffer ends exactly at the end of its allocation and the
 // bytes before it are poisoned under ASan, so any over/under-read is a crash):
 //   - CRC types: every available implementation (api = liblzma's dispatched lzma_crc32/64, generic =
-//     table-driven static function, clmul = carry-less multiplication static function) is run over the pieces,
+//     table-driven static function, clmul = carry-less multiplication static function, small = crc32_small.c /
+//     crc64_small.c of --enable-small builds) is run over the pieces,
 //     chaining the running value; the final value must equal `expect`.
 //   - init = 0 (and SHA-256): lzma_check_init / lzma_check_update per piece / lzma_check_finish with the
 //     state buffer pre-filled with junk; buffer.u8[0..size) must equal `expect`.
@@ -39,6 +40,8 @@ extern uint64_t c14_crc64_clmul(const uint8_t *buf, size_t size, uint64_t crc);
 extern uint64_t c14_copy_lzma_crc64(const uint8_t *buf, size_t size, uint64_t crc);
 extern int c14_crc64_have_clmul(void);
 extern int c14_crc64_have_generic(void);
+extern uint32_t c14_small_crc32(const uint8_t *buf, size_t size, uint32_t crc);
+extern uint64_t c14_small_crc64(const uint8_t *buf, size_t size, uint64_t crc);
 
 static unsigned long long calls;
 static unsigned long mismatches;
@@ -75,17 +78,20 @@ int main(void)
 	static uint8_t data[1 << 16], expect[64], initb[16];
 	static size_t pieces[1 << 12];
 	unsigned long cs = 0;
-	const char *names32[4]; f32 fn32[4]; int n32 = 0;
-	const char *names64[4]; f64 fn64[4]; int n64 = 0;
+	const char *names32[6]; f32 fn32[6]; int n32 = 0;
+	const char *names64[6]; f64 fn64[6]; int n64 = 0;
 
 	names32[n32] = "api"; fn32[n32++] = &lzma_crc32;
 	names32[n32] = "copy"; fn32[n32++] = &c14_copy_lzma_crc32;
 	if (c14_crc32_have_generic()) { names32[n32] = "generic"; fn32[n32++] = &c14_crc32_generic; }
 	if (c14_crc32_have_clmul()) { names32[n32] = "clmul"; fn32[n32++] = &c14_crc32_clmul; }
+	names32[n32] = "small"; fn32[n32++] = &c14_small_crc32;
 	names64[n64] = "api"; fn64[n64++] = &lzma_crc64;
 	names64[n64] = "copy"; fn64[n64++] = &c14_copy_lzma_crc64;
 	if (c14_crc64_have_generic()) { names64[n64] = "generic"; fn64[n64++] = &c14_crc64_generic; }
 	if (c14_crc64_have_clmul()) { names64[n64] = "clmul"; fn64[n64++] = &c14_crc64_clmul; }
+
+	names64[n64] = "small"; fn64[n64++] = &c14_small_crc64;
 
 	while (fgets(line, sizeof(line), stdin)) {
 		char *save = NULL;
